@@ -29,36 +29,72 @@ class FixedScratch:
 
 
 def inject(repo_dir, rel_file, harness_file, modname):
+    """Append `#[cfg(kani)] #[path=...] mod <modname>;` to the scratch copy of rel_file. The harness source is copied
+    into the scratch tree so that concrete-playback tests can be appended to it for native replay."""
     path = os.path.join(repo_dir, rel_file)
     if not os.path.exists(path):
-        return False
+        return None
+    hd = os.path.join(repo_dir, "verif_harness")
+    os.makedirs(hd, exist_ok=True)
+    local = os.path.join(hd, os.path.basename(harness_file))
+    shutil.copyfile(harness_file, local)
     with open(path, "a") as f:
-        f.write('\n#[cfg(kani)]\n#[path = "%s"]\nmod %s;\n' % (harness_file, modname))
-    return True
+        f.write('\n#[cfg(kani)]\n#[path = "%s"]\nmod %s;\n' % (local, modname))
+    return local
+
+
+def kani_replay(scratch, package, env, full_name, short, local_files, pid, timeout=900):
+    """Concrete playback: ask Kani for the counterexample as a unit test, append it to the harness module, run it natively
+    (cargo kani playback). -> (reproduced: bool|None, replay path, detail)"""
+    cmd = ["cargo", "kani", "-p", package, "-Z", "stubbing", "-Z", "concrete-playback", "--concrete-playback=print",
+           "--harness", full_name, "--exact", "--output-format", "terse"]
+    rc, out, err, secs = run(cmd, cwd=scratch.repo, env=env, timeout=timeout)
+    m = re.search(r"```\s*\n(.*?#\[test\].*?)```", out, re.S)
+    if not m:
+        return None, None, "no concrete playback test printed"
+    test = m.group(1)
+    tn = re.search(r"fn (kani_concrete_playback_\w+)", test)
+    if not tn:
+        return None, None, "unparseable playback test"
+    tname = tn.group(1)
+    path = save_replay(pid, "%s.playback.rs" % short,
+                       "// Kani concrete playback for harness %s (append to the harness module, then\n"
+                       "// cargo kani playback -Z concrete-playback -p %s -- %s)\n%s" % (full_name, package, tname, test))
+    # find the harness file that defines the harness
+    target = None
+    for lf in local_files:
+        if re.search(r"fn %s\b" % re.escape(short), open(lf).read()):
+            target = lf
+    if target is None:
+        return None, path, "harness source not found for playback"
+    with open(target, "a") as f:
+        f.write("\n" + test + "\n")
+    env2 = dict(env)
+    env2.pop("CARGO_TARGET_DIR", None)   # playback rejects --target-dir; use a scratch-local target, removed with the scratch
+    env2["CARGO_TARGET_DIR"] = scratch.target + "-playback"
+    rc, out2, err2, secs2 = run(["cargo", "kani", "playback", "-Z", "concrete-playback", "-p", package, "--", tname],
+                                cwd=scratch.repo, env=env2, timeout=timeout)
+    txt = out2 + err2
+    if re.search(r"test result: FAILED", txt) or "panicked at" in txt:
+        return True, path, "native playback test %s FAILED as predicted" % tname
+    if re.search(r"test result: ok", txt):
+        return False, path, "native playback test %s passed: counterexample does not reproduce" % tname
+    return None, path, "playback inconclusive rc=%s: %s" % (rc, txt[-600:])
 
 
 def parse_kani_output(out):
-    """-> {harness: {'status': 'SUCCESSFUL'|'FAILED'|None, 'failed': [desc], 'checks': n, 'covers': (sat, total),
-                      'time': s}}"""
-    res = {}
-    cur = None
+    """One harness' output -> {'status', 'failed', 'checks', 'covers', 'time', 'unwind_fail', 'timeout'}"""
+    r = {"status": None, "failed": [], "checks": 0, "covers": None, "time": 0.0, "unwind_fail": False, "timeout": False}
+    last = None
     for line in out.splitlines():
-        m = re.match(r"Checking harness (\S+?)\.\.\.", line)
-        if m:
-            cur = m.group(1)
-            res[cur] = {"status": None, "failed": [], "checks": 0, "covers": None, "time": 0.0, "unwind_fail": False}
-            continue
-        if cur is None:
-            continue
-        r = res[cur]
         m = re.match(r"\s*- Status: (\w+)", line)
         if m:
-            r["_last_status"] = m.group(1)
+            last = m.group(1)
             r["checks"] += 1
             continue
         m = re.match(r"\s*- Description: \"(.*)\"", line)
-        if m and r.get("_last_status") in ("FAILURE", "UNDETERMINED", "UNREACHABLE"):
-            if r["_last_status"] == "FAILURE":
+        if m:
+            if last == "FAILURE":
                 r["failed"].append(m.group(1))
                 if "unwinding assertion" in m.group(1):
                     r["unwind_fail"] = True
@@ -71,41 +107,52 @@ def parse_kani_output(out):
         if m:
             r["status"] = m.group(1)
             continue
+        if "CBMC timed out" in line or "out of memory" in line.lower():
+            r["timeout"] = True
         m = re.match(r"Verification Time: ([\d.]+)s", line)
         if m:
             r["time"] = float(m.group(1))
-    return res
+    return r
 
 
-def run_kani(rep, scratch, package, injections, expect_fail_prefixes=("twin_must_fail",), timeout=1800, extra=None, jobs=8,
-             harness_filter=None, label=""):
+def run_kani(rep, scratch, package, injections, expect_fail_prefixes=("twin_must_fail",), timeout=1800, extra=None, jobs=12,
+             harness_filter=None, label="", harness_timeout=300):
     """injections: [(relative source file, absolute harness file, module name)].
     Adds one Query per harness to rep. Harness names containing an expect_fail marker are vacuity twins."""
+    local_files = []
     for rel, hf, mod in injections:
-        if not inject(scratch.repo, rel, hf, mod):
+        lf = inject(scratch.repo, rel, hf, mod)
+        if not lf:
             rep.add(Query("kani inject %s" % rel, "inconclusive", "anchored source file not found", 0, "kani"))
             return {}
+        local_files.append(lf)
     env = dict(ENV)
     env["CARGO_TARGET_DIR"] = scratch.target
-    cmd = ["cargo", "kani", "-p", package, "-Z", "stubbing", "--output-format", "regular"]
+    outdir = os.path.join(scratch.repo, "result_output_dir")
+    shutil.rmtree(outdir, ignore_errors=True)
+    cmd = ["cargo", "kani", "-p", package, "-Z", "stubbing", "-Z", "unstable-options", "-j", str(jobs), "--output-format", "terse",
+           "--output-into-files", "--harness-timeout", "%ds" % harness_timeout]
     if harness_filter:
         for h in harness_filter:
             cmd += ["--harness", h]
     if extra:
         cmd += extra
     rc, out, err, secs = run(cmd, cwd=scratch.repo, env=env, timeout=timeout)
-    res = parse_kani_output(out)
+    res = {}
+    if os.path.isdir(outdir):
+        for f in sorted(os.listdir(outdir)):
+            res[f] = parse_kani_output(open(os.path.join(outdir, f), errors="replace").read())
     if not res:
         rep.add(Query("kani %s %s" % (package, label), "inconclusive", "no harness output rc=%s: %s" % (rc, (out + err)[-1500:]), secs, "kani"))
         return res
     for h, r in sorted(res.items()):
         short = h.split("::")[-1]
         twin = any(p in short for p in expect_fail_prefixes)
-        r.pop("_last_status", None)
-        if r["status"] is None:
-            rep.add(Query("kani %s" % short, "inconclusive", "no verdict (timeout %ss? rc=%s)" % (timeout, rc), r["time"], "kani/cbmc"))
+        if r["timeout"] or r["status"] is None:
+            rep.add(Query("kani %s" % short, "inconclusive", "no verdict within %ds (CBMC timed out / no status; rc=%s)" % (harness_timeout, rc),
+                          r["time"] or harness_timeout, "kani/cbmc", key=short))
         elif twin:
-            ok = r["status"] == "FAILED" and not r["unwind_fail"]
+            ok = r["status"] == "FAILED" and not r["unwind_fail"] and r["failed"]
             rep.add(Query("kani vacuity twin %s (must fail)" % short, "witness-hit" if ok else "witness-missed",
                           "; ".join(r["failed"][:3]), r["time"], "kani/cbmc"))
         elif r["status"] == "SUCCESSFUL":
@@ -115,8 +162,15 @@ def run_kani(rep, scratch, package, injections, expect_fail_prefixes=("twin_must
             else:
                 rep.add(Query("kani %s" % short, "holds", "%d checks, covers %s" % (r["checks"], cov), r["time"], "kani/cbmc", key=short))
         else:
-            if r["unwind_fail"] and len([f for f in r["failed"] if "unwinding" not in f]) == 0:
-                rep.add(Query("kani %s" % short, "inconclusive", "unwinding assertion failed: bound too small", r["time"], "kani/cbmc", key=short))
+            real = [f for f in r["failed"] if "unwinding" not in f]
+            if not real:
+                rep.add(Query("kani %s" % short, "inconclusive", "FAILED without a property failure (unwinding bound too small or tool error): %s"
+                              % "; ".join(r["failed"][:3]), r["time"], "kani/cbmc", key=short))
             else:
-                rep.add(Query("kani %s" % short, "violated", "; ".join(r["failed"][:5]), r["time"], "kani/cbmc", key=short))
+                reproduced, rpath, detail = kani_replay(scratch, package, env, h, short, local_files, rep.pid)
+                if reproduced:
+                    rep.traces_validated += 1
+                rep.add(Query("kani %s" % short, "violated" if reproduced is not None else "inconclusive",
+                              "; ".join(real[:5]) + " || replay: " + detail, r["time"], "kani/cbmc", key=short,
+                              replay=rpath, reproduced=reproduced))
     return res
